@@ -38,8 +38,13 @@ Strs == { <<"str", <<>>>> } \cup { <<"str", <<c>>>> : c \in Cps } \cup { <<"str"
 Scalars == { <<"null">>, <<"bool", TRUE>>, <<"bool", FALSE>> } \cup Ints \cup Bigs \cup Dbls \cup Strs
 Small == { <<"null">>, <<"int", <<49>>>>, <<"dbl", <<63,248,0,0,0,0,0,0>>>>, <<"str", <<97>>>>, <<"str", <<34, 233, 47>>>>, <<"arr", <<>>>>, <<"obj", <<>>>>, <<"bool", TRUE>> }
 KeysC == { <<97>>, <<98>>, <<>>, <<34, 92>>, <<233>>, <<47>>, <<65535>>, <<128512>>, <<10>> }
-Arr1 == { <<"arr", <<a>>>> : a \in Small } \cup { <<"arr", <<a, b>>>> : a \in Small, b \in Small } \cup { <<"arr", <<a, a, a, a, a, a, a, a, a, a, a, a>>>> : a \in {<<"int", <<49,50,51,52,53,54>>>>, <<"str", <<97,98,99>>>>} }
+Arr1 == { <<"arr", <<a>>>> : a \in Small } \cup { <<"arr", <<a, b>>>> : a \in Small, b \in Small } \cup { <<"arr", <<a, a, a, a, a, a, a, a, a, a, a, a>>>> : a \in {<<"int", <<49,50,51,52,53,54>>>>, <<"str", <<97,98,99>>>>, <<"str", <<233,233,233,233>>>>, <<"str", <<8364,8364>>>>, <<"str", <<128512,97>>>>} }
 Obj1 == { <<"obj", <<<<k, a>>>>>> : k \in KeysC, a \in Small } \cup { <<"obj", <<<<<<98>>, a>>, <<<<97>>, b>>>>>> : a \in Small, b \in Small }
+        \* member names mixing ASCII and non-ASCII (their UTF-8 bytes order differently under signed and unsigned comparison), given in both orders
+        \cup { <<"obj", <<<<<<122>>, a>>, <<<<233>>, b>>>>>> : a \in Small, b \in {<<"int", <<49>>>>, <<"str", <<233>>>>} }
+        \cup { <<"obj", <<<<<<233>>, <<"int", <<50>>>>>>, <<<<97>>, <<"arr", <<>>>>>>, <<<<122>>, <<"int", <<51>>>>>>>>>>,
+                <<"obj", <<<<<<99, 97, 102, 233>>, <<"int", <<49>>>>>>, <<<<99, 97, 102, 101>>, <<"int", <<50>>>>>>, <<<<99, 97, 102>>, <<"null">>>>>>>>,
+                <<"obj", <<<<<<128512>>, <<"int", <<49>>>>>>, <<<<126>>, <<"int", <<50>>>>>>, <<<<233, 233, 233, 233>>, <<"str", <<233, 233, 233, 233>>>>>>>>>> }
 Nested == { <<"arr", <<x, <<"int", <<49>>>>, x>>>> : x \in {y \in Arr1 \cup Obj1 : Len(y[2]) = 2} } \cup
           { <<"obj", <<<<<<97>>, x>>, <<<<98>>, <<"arr", <<x, x>>>>>>>>>> : x \in {y \in Arr1 \cup Obj1 : Len(y[2]) = 2} }
 Values == Scalars \cup Arr1 \cup Obj1 \cup (IF Big THEN Nested ELSE {y \in Nested : y[1] = "arr"})
